@@ -291,7 +291,14 @@ def gen_case(r: random.Random) -> dict:
 		path = '.'.join(ident(r).replace('::', '_').replace('.', '_') for _ in range(r.choice([1, 2, 3])))
 		a2 = dict(allow)
 		pos = [element(r, r.choice([0, 1, 3]), tags, a2) for _ in range(r.choice([0, 1, 2, 3]))]
-		lab = [(r.choice(['a', 'key', 'b_1']) + str(i), element(r, r.choice([0, 1, 3]), tags, a2)) for i in range(r.choice([0, 0, 1, 2]))]
+		def value() -> str:
+			v = element(r, r.choice([0, 1, 3]), tags, a2)
+			if r.random() < 0.3:
+				# the value of a keyword argument is everything after the FIRST top-level '=': it may hold comparison operators itself
+				tags.add('deco:value-with-equals')
+				v = f'{v} {r.choice(["==", ">=", "<=", "!="])} {element(r, r.choice([0, 1]), tags, a2)}'
+			return v
+		lab = [(r.choice(['a', 'key', 'b_1']) + str(i), value()) for i in range(r.choice([0, 0, 1, 2]))]
 		case.update(path=path, pos=pos, labelled=[list(x) for x in lab])
 	elif law == 'param':
 		base = r.choice(['int', 'std::string', 'A', 'float', 'bool'])
@@ -349,6 +356,11 @@ def valid(case: dict) -> bool:
 
 
 FIXED = [
+	{'law': 'deco', 'path': 'Embed.when', 'pos': [], 'labelled': [['cond', 'a == b'], ['when', 'x.size() >= 2']], 'tags': ['deco:value-with-equals']},
+	{'law': 'deco', 'path': 'Embed.alias', 'pos': ['f(1)'], 'labelled': [], 'tags': []},
+	{'law': 'deco', 'path': 'p', 'pos': ['a', 'g(h(2))'], 'labelled': [['k', 'f(x)']], 'tags': []},
+	{'law': 'sep', 'delim': ',', 'text': 'a,', 'tags': []},
+	{'law': 'sep', 'delim': '=', 'text': 'int n =', 'tags': []},
 	{'law': 'sep', 'delim': ',', 'text': '1, f(2, b=3), l[0]', 'tags': []},
 	{'law': 'sep', 'delim': ' ', 'text': 'std::map<std::string, int> dsn', 'tags': []},
 	{'law': 'sep', 'delim': '=', 'text': 'std::map<std::string, int> dsn = {}', 'tags': []},
